@@ -39,6 +39,7 @@ def scripted_id_reuse(w, origin, victim_hops):
                         w.deliver(w.net.inflight[0].seq)
                 # cells for that id whose content the sender could not have encrypted (no keys): nothing changes, not even
                 # the entry's record of its last activity
+                w.idle(700)                         # (some time after whatever was the circuits' last genuine activity)
                 w.inject("adv", n, c, "data")
                 w.deliver(w.net.inflight[-1].seq)
                 while w.net.inflight:
